@@ -13,25 +13,25 @@ one `AsyncResult.onResult` call, under the GIL — is an ASSUMPTION, validated (
 it was registered with (SUCCESS) or with `None` and a failure; it may never be answered (interface
 supplied by C02).
 
-`Run m progs ro ls s`: `s` is the state after schedule `ls` from the initial state (queue limit `m`,
-thread `i` runs the calls `progs[i]`, applying command `x` returns `ro x`).  Every theorem is
-`∀ m progs ro ls s, Run … → …`, proved from the inductive invariant `PSO.Queue.Inv`
+`Run m progs ro c0 ls s`: `s` is the state after schedule `ls` from the initial state (queue limit `m`,
+thread `i` runs the calls `progs[i]`, applying command `x` returns `ro x`, `commandsLocalCounter` starts
+at `c0` — any value: the code draws 48 random bits).  Every theorem is `∀ m progs ro c0 ls s, Run … → …`, proved from the inductive invariant `PSO.Queue.Inv`
 (`inv_init`, `inv_step`, `inv_exec`).
 -/
 namespace PSO.C19
 open PSO.Queue
 
 /-- `s` is reached by the schedule `ls` (any merge of the threads' atomic actions) -/
-def Run (m : Nat) (progs : List (List CallSpec)) (ro : CmdRef → Nat) (ls : List Label) (s : Sys) : Prop :=
-  (Sys.init m progs ro).exec ls = some s
+def Run (m : Nat) (progs : List (List CallSpec)) (ro : CmdRef → Nat) (c0 : Nat) (ls : List Label) (s : Sys) : Prop :=
+  (Sys.init m progs ro c0).exec ls = some s
 
-theorem run_inv {m progs ro ls s} (h : Run m progs ro ls s) : Inv s := inv_exec (inv_init m progs ro) ls h
+theorem run_inv {m progs ro c0 ls s} (h : Run m progs ro c0 ls s) : Inv s := inv_exec (inv_init m progs ro c0) ls h
 
 /-- Every call whose `_applyCommand` step ran was enqueued exactly once or refused (`Queue.Full`) exactly
 once — never both, never twice; before that step, neither.  A refused call with a callback was told
 `QUEUE_FULL` through that callback.  A call's command is dequeued at most as often as it was enqueued
 (so at most once, and never when refused). -/
-theorem each_call_once_or_failed {m progs ro ls s} (h : Run m progs ro ls s) (c : CallId) :
+theorem each_call_once_or_failed {m progs ro c0 ls s} (h : Run m progs ro c0 ls s) (c : CallId) :
     (s.hist.countP (Ev.isEnq c) + s.hist.countP (Ev.isFull c)
         = if s.isRepl c = true ∧ s.putDone c then 1 else 0) ∧
     s.hist.countP (Ev.isDeq (.call c)) ≤ s.hist.countP (Ev.isEnq c) ∧
@@ -50,18 +50,18 @@ theorem each_call_once_or_failed {m progs ro ls s} (h : Run m progs ro ls s) (c 
 
 /-- FIFO: the commands dequeued so far are, in order, a prefix of the commands enqueued so far, and the
 rest is exactly the queue content, in order (local calls and forwarded commands alike). -/
-theorem fifo_order {m progs ro ls s} (h : Run m progs ro ls s) :
+theorem fifo_order {m progs ro c0 ls s} (h : Run m progs ro c0 ls s) :
     enqSeq s.hist = deqSeq s.hist ++ s.q.items.map (fun e => e.cmd) := (run_inv h).fifo
 
 /-- Every dequeued command went exactly one way: appended to the leader's log once, or forwarded to the
 leader once, or refused — never two of them, never twice.  Hence a call enters the replication core at
 most once. -/
-theorem dispatched_once {m progs ro ls s} (h : Run m progs ro ls s) (x : CmdRef) :
+theorem dispatched_once {m progs ro c0 ls s} (h : Run m progs ro c0 ls s) (x : CmdRef) :
     s.hist.countP (Ev.isDeq x)
       = s.hist.countP (Ev.isApp x) + s.hist.countP (Ev.isFwd x) + s.hist.countP (Ev.isDrop x) :=
   (run_inv h).disp x
 
-theorem enters_core_at_most_once {m progs ro ls s} (h : Run m progs ro ls s) (c : CallId) :
+theorem enters_core_at_most_once {m progs ro c0 ls s} (h : Run m progs ro c0 ls s) (c : CallId) :
     s.hist.countP (Ev.isApp (.call c)) + s.hist.countP (Ev.isFwd (.call c)) ≤ 1 := by
   have h1 := dispatched_once h (.call c)
   have h2 := (each_call_once_or_failed h c).2.2.1
@@ -71,7 +71,7 @@ theorem enters_core_at_most_once {m progs ro ls s} (h : Run m progs ro ls s) (c 
 `_applyCommand` step ran, in exactly one place: in the queue, registered with the core, or it has fired
 exactly once.  So it never fires twice, and it has fired exactly once as soon as it is neither queued
 nor waiting in the core (i.e. the core answered, or the dispatch / the full queue refused the call). -/
-theorem callback_once {m progs ro ls s} (h : Run m progs ro ls s) (c : CallId) :
+theorem callback_once {m progs ro c0 ls s} (h : Run m progs ro c0 ls s) (c : CallId) :
     s.hist.countP (Ev.isFired c) ≤ 1 ∧
     (s.q.items.countP (fun e => e.cb.isFor c) + s.pend.countP (fun p => p.e.cb.isFor c)
         + s.hist.countP (Ev.isFired c) = if s.hasCb c = true ∧ s.putDone c then 1 else 0) :=
@@ -79,20 +79,20 @@ theorem callback_once {m progs ro ls s} (h : Run m progs ro ls s) (c : CallId) :
 
 /-- A callback only ever travels with its own command: in the queue and inside the core the entry that
 carries the callback of call `c` carries the command built by call `c`. -/
-theorem callback_with_own_command {m progs ro ls s} (h : Run m progs ro ls s) (c : CallId) :
+theorem callback_with_own_command {m progs ro c0 ls s} (h : Run m progs ro c0 ls s) (c : CallId) :
     (∀ e ∈ s.q.items, e.cb.isFor c = true → e.cmd = .call c) ∧
     (∀ p ∈ s.pend, p.e.cb.isFor c = true → p.e.cmd = .call c) :=
   ⟨fun e he => (run_inv h).pairQ e he c, fun p hp => (run_inv h).pairP p hp c⟩
 
 /-- what the last state knows about the calls is what the programs say -/
-theorem run_static {m progs ro ls s} (h : Run m progs ro ls s) :
+theorem run_static {m progs ro c0 ls s} (h : Run m progs ro c0 ls s) :
     s.resultOf = ro ∧ ∀ c, s.planAt c = (((progs.getD c.t [])[c.k]?).map planOf) := by
   obtain ⟨h1, h2⟩ := exec_static ls h
   exact ⟨h1, fun c => by simp only [Sys.planAt, h2 c.t]; rfl⟩
 
 /-- A callback that fires gets the result of its OWN command together with SUCCESS, or `None` together
 with a failure reason. -/
-theorem callback_gets_own_result {m progs ro ls s} (h : Run m progs ro ls s) (c : CallId)
+theorem callback_gets_own_result {m progs ro c0 ls s} (h : Run m progs ro c0 ls s) (c : CallId)
     (r : Option Nat) (e : Fail) (hf : Ev.fired c r e ∈ s.hist) :
     r = if e = .success then some (ro (.call c)) else none := by
   have := (run_inv h).firedGood c r e hf
@@ -106,7 +106,7 @@ theorem callback_gets_own_result {m progs ro ls s} (h : Run m progs ro ls s) (c 
 * `o = raised e` with `e ≠ SUCCESS`, justified by an earlier invocation of c's callback with `(None, e)`;
 * `o = timeout` ('Timeout'), and then the call is a sync call whose timeout is not `None`
   (the model takes that step only while the `AsyncResult` is not set: `Sys.timeoutStep`). -/
-theorem sync_returns_own_result {m progs ro ls s} (h : Run m progs ro ls s)
+theorem sync_returns_own_result {m progs ro c0 ls s} (h : Run m progs ro c0 ls s)
     (pre post : List Ev) (c : CallId) (o : Outcome) (hs : s.hist = pre ++ Ev.ret c o :: post) :
     (o = .value (some (ro (.call c))) ∧ Ev.fired c (some (ro (.call c))) .success ∈ post) ∨
     (∃ e, e ≠ Fail.success ∧ o = .raised e ∧ Ev.fired c none e ∈ post) ∨
@@ -127,7 +127,7 @@ theorem sync_returns_own_result {m progs ro ls s} (h : Run m progs ro ls s)
       exact Or.inr (Or.inl ⟨e, he, by rw [ho]; simp [outcomeOf, he], hm⟩)
 
 /-- the value a sync call returns is the result of its own command -/
-theorem sync_value_is_own {m progs ro ls s} (h : Run m progs ro ls s) (c : CallId) (v : Option Nat)
+theorem sync_value_is_own {m progs ro c0 ls s} (h : Run m progs ro c0 ls s) (c : CallId) (v : Option Nat)
     (hm : Ev.ret c (.value v) ∈ s.hist) : v = some (ro (.call c)) := by
   obtain ⟨pre, post, hs⟩ := List.append_of_mem hm
   rcases sync_returns_own_result h pre post c _ hs with ⟨ho, _⟩ | ⟨e, _, ho, _⟩ | ⟨ho, _⟩
@@ -179,7 +179,7 @@ def followerEnv : Env := ⟨true, false, true, false, 2, 1⟩
 /-- queue limit 0: thread 0's sync call is enqueued, thread 1's call with a callback is refused
 (QUEUE_FULL through its callback), the leader appends, the core answers SUCCESS, the sync call returns
 the result of its own command. -/
-example : ∃ s, Run 0 [[specSync], [specCb]] (fun _ => 7)
+example : ∃ s, Run 0 [[specSync], [specCb]] (fun _ => 7) 0
       [.call 0, .call 0, .call 1, .call 1, .tick leaderEnv, .answer 0 .success, .call 0] s ∧
     s.hist = [Ev.ret ⟨0, 0⟩ (.value (some 7)), .fired ⟨0, 0⟩ (some 7) .success,
       .appended (.call ⟨0, 0⟩) 2 1, .deq (.call ⟨0, 0⟩), .fired ⟨1, 0⟩ none .queueFull, .full ⟨1, 0⟩,
@@ -188,14 +188,14 @@ example : ∃ s, Run 0 [[specSync], [specCb]] (fun _ => 7)
 
 /-- forwarded by a follower, the wait times out, the answer (a failure) arrives later: 'Timeout' first,
 the late callback changes nothing the caller sees. -/
-example : ∃ s, Run 3 [[specSync]] (fun _ => 7)
+example : ∃ s, Run 3 [[specSync]] (fun _ => 7) 41
       [.call 0, .call 0, .tick followerEnv, .timeout 0, .answer 0 .leaderChanged] s ∧
     s.hist = [Ev.fired ⟨0, 0⟩ none .leaderChanged, .ret ⟨0, 0⟩ .timeout,
-      .forwarded (.call ⟨0, 0⟩) (some 1), .deq (.call ⟨0, 0⟩), .enq ⟨0, 0⟩] :=
+      .forwarded (.call ⟨0, 0⟩) (some 42), .deq (.call ⟨0, 0⟩), .enq ⟨0, 0⟩] :=
   ⟨_, rfl, by decide⟩
 
 /-- a failure reason is raised -/
-example : ∃ s, Run 3 [[specSync]] (fun _ => 7)
+example : ∃ s, Run 3 [[specSync]] (fun _ => 7) 41
       [.call 0, .call 0, .tick ⟨false, false, false, false, 2, 1⟩, .call 0] s ∧
     s.hist = [Ev.ret ⟨0, 0⟩ (.raised .missingLeader), .fired ⟨0, 0⟩ none .missingLeader,
       .dropped (.call ⟨0, 0⟩) .missingLeader, .deq (.call ⟨0, 0⟩), .enq ⟨0, 0⟩] :=
